@@ -429,3 +429,5 @@ func httptestGet(u string) *http.Request { return httptest.NewRequest("GET", u, 
 func emitStr(s string) string            { return emit.Str(s) }
 
 func emitBool(b bool) string { return emit.Bool(b) }
+
+func osErrNotExist() error { return os.ErrNotExist }
